@@ -11,8 +11,12 @@ def mk(kind, v, t):
         return TriaMesh(v, t) if kind == "tri" else TetMesh(v, t)
 
 
+SEED_FORM = {"form": "flat"}          # how the seed vertices are handed over: flat list, the list of loops `boundary_loops()` returns, 2-D index array
+
+
 def run_diffusion(kind, v, t, vids, m, aniso=None, reuse=False):
     geo = mk(kind, v, t)
+    vids = {"flat": lambda x: x, "nested": lambda x: [list(x)], "array2d": lambda x: np.array(x).reshape(1, -1)}[SEED_FORM["form"]](list(vids))
     with core.quiet():
         if reuse:
             # an earlier call on the same object, then an in-place change of the vertices: the second call must see the current mesh
@@ -72,7 +76,7 @@ class Check(BaseCheck):
                     continue
                 n = len(c["v"])
                 vids = [int(x) for x in rng.choice(n, size=int(rng.integers(1, 4)))]
-                yield dict(kind=kind, v=c["v"], t=c["t"], vids=vids, m=float(rng.uniform(0.1, 5.0)), name=c["name"], reuse=bool(rng.random() < 0.3), pres=c.get("pres"), vdtype=c.get("vdtype"))
+                yield dict(vform=str(rng.choice(["flat", "flat", "nested", "array2d"])), kind=kind, v=c["v"], t=c["t"], vids=vids, m=float(rng.uniform(0.1, 5.0)), name=c["name"], reuse=bool(rng.random() < 0.3), pres=c.get("pres"), vdtype=c.get("vdtype"))
         from .. import corr_fem
         for c in corr_fem.aniso_meshes(seed + 73, max(3, n_tri // 5)):
             if c["name"] == "sliver":
@@ -89,7 +93,8 @@ class Check(BaseCheck):
             v, t = case["v"], case["t"]
             gen.use(case)
             n = len(v)
-            stats.case(core.mesh_key(v, t, case["vids"], case["m"]), cls=[case["kind"] + ":" + case["name"], "seeds:%d" % len(set(case["vids"]))],
+            SEED_FORM["form"] = case.get("vform", "flat")
+            stats.case(core.mesh_key(v, t, case["vids"], case["m"]), cls=[case["kind"] + ":" + case["name"], "seeds:%d" % len(set(case["vids"])), "seed-form:" + case.get("vform", "flat")],
                        sample=dict(kind=case["kind"], name=case["name"], n=n, vids=case["vids"], m=case["m"]))
             try:
                 aniso = case.get("aniso")
@@ -210,6 +215,7 @@ class Check(BaseCheck):
                     return core.Violation("diagonal", "diagonal is not the kernel at p=q=x: %s" % (str(hd)[:80],), case)
             return None
         kind = case["kind"]
+        SEED_FORM["form"] = case.get("vform", "flat")
         v = np.asarray(case["v"], float); t = np.asarray(case["t"], dtype=np.int64); vids = [int(x) for x in case["vids"]]; m = float(case["m"])
         aniso = case.get("aniso")
         aniso = tuple(aniso) if isinstance(aniso, (list, np.ndarray)) else aniso
